@@ -62,8 +62,10 @@ def coupled(c0, c1):
     return _CPL['cls'](c0, c1)
 
 
-def make_basis(ws, d, cpl=False):
+def make_basis(ws, d, cpl=False, same=False):
     basis = [[funcs((kk + j) % d)[(s + j) % NREP] for j in range(n)] for kk, (s, n) in enumerate(ws)]
+    if same:
+        basis = [basis[0]] * len(ws)         # ONE list of Function objects used for every mode
     if cpl:
         basis[-1][0] = coupled(0, 1)         # the last mode starts with a function of coordinates 0 and 1
         if len(basis[0]) > 1:
@@ -83,6 +85,8 @@ def cases(tier):
                     yield {'k': 'gen', 'd': d, 'd2': d2, 'ws': [list(w) for w in ws]}
                     if d >= 2 and p == 2:
                         yield {'k': 'gen', 'd': d, 'd2': d2, 'ws': [list(w) for w in ws], 'cpl': True}
+                    if ws[0][1] >= 2 and all(w == ws[0] for w in ws):
+                        yield {'k': 'gen', 'd': d, 'd2': d2, 'ws': [list(w) for w in ws], 'same': True}
     for d in ((1, 2) if q else (1, 2, 3)):
         for d2 in (1, 2, 3):
             for m in ((4, 6, 9) if q else (4, 6, 9, 12)):
@@ -97,6 +101,11 @@ def cases(tier):
                                                 continue
                                             yield {'k': 'amuset', 'd': d, 'd2': d2, 'm': m, 'ws': [list(w) for w in ws], 'b': bg, 'rw': rw,
                                                    'rel': rel, 'mr': mr, 'nev': nev, 'ro': ro}
+                            if ws[0][1] == 2 and len(ws) == 2 and m >= 6:
+                                # the same list object (same Function objects) in every mode
+                                for ro in ('eigenfunctionevals', 'eigentensors'):
+                                    yield {'k': 'amuset', 'd': d, 'd2': d2, 'm': m, 'ws': [list(ws[0]), list(ws[0])], 'b': bg, 'rw': rw,
+                                           'rel': False, 'mr': 'inf', 'nev': 'inf', 'ro': ro, 'same': True}
                             if d >= 2:
                                 # a user-defined basis function of two coordinates (mixed second derivatives x correlated diffusion)
                                 for ro in ('eigenfunctionevals', 'eigentensors'):
@@ -147,7 +156,7 @@ def run_case(case, seed):
     rng = rng_for(case, seed)
     r.nontrivial = True
     d, d2 = case['d'], case['d2']
-    basis = make_basis(case['ws'], d, case.get('cpl', False))
+    basis = make_basis(case['ws'], d, case.get('cpl', False), case.get('same', False))
     n = [len(bb) for bb in basis]
     sq = 'square' if d == d2 else 'nonsquare'
     if case['k'] == 'gen':
